@@ -180,15 +180,17 @@ Lemma eval_meth env m recv args :
   let* (rv, env1) := eval W env recv in
   let* (vs, env2) := evals env1 args in
   let* (r, rv') := w_meth W m rv vs in
-  Ok (r, match owner_of env recv with Some x => update x rv' env2 | None => env2 end).
+  Ok (r, place_set W env2 recv rv').
 Proof.
   change (eval W env (PMeth m recv args)) with
     (let* (rv, env1) := eval W env recv in
      let* (vs, env2) := evals0 env1 args in
      let* (r, rv') := w_meth W m rv vs in
-     Ok (r, match owner_of env recv with Some x => update x rv' env2 | None => env2 end)).
+     Ok (r, place_set W env2 recv rv')).
   destruct (eval W env recv) as [[rv env1]|e]; [|reflexivity]. cbn [bind]. rewrite evals0_eq. reflexivity.
 Qed.
+Lemma place_set_name env x v o : lookup x env = Some o -> place_set W env (PName x) v = update x v env.
+Proof. intros H. cbn [place_set]. rewrite H. reflexivity. Qed.
 Fixpoint comp_each (xs : list string) (elt : pexp) (vs : list V) (envc : penv) : res (list V) :=
   match vs with
   | [] => Ok []
